@@ -231,3 +231,16 @@ Fixpoint spec_wtrace_total (g : ghost) (ops : list wop) : list (outcome wobs) :=
     if raises g o then [Exc IndexError]
     else Val (snd (spec_wstep g o)) :: spec_wtrace_total (fst (spec_wstep g o)) rest
   end.
+
+(* ------------------------------------------------ exception-atomicity of run()
+   Demanded: a call that raises leaves the wrap state either untouched or fully updated, so that
+   the following answers are the demanded ones whether or not the failed call is taken to have
+   happened.  The code achieves this by containing, between its first state update and the cache
+   store, only operations that cannot raise on the objects they are applied to (fresh locals,
+   the input dict, the two defaultdicts).  [safe_ops] = those operations, by the name under which
+   the source translator (props/_c10_tables.py) lists them. *)
+Definition safe_ops : list bytes :=
+  [ bs "len"; bs "range"; bs "tuple"; bs "set"; bs ".keys"; bs ".add"; bs ".append"; bs ".defaultdict";
+    bs "._add_dict"; bs "._remove_dead_reminders";
+    bs "assert@_add_dict" (* the three asserts of _add_dict precede its first store *) ].
+Definition op_safe (fo : bytes * bytes) : bool := memk (snd fo) safe_ops.
